@@ -350,6 +350,9 @@ F_CONFIGS: dict[str, dict[str, Any]] = {
     # chains: consecutive intervals share 21, next-but-one share nothing
     "f1": {"ivs": [[0, 42], [21, 63], [42, 84], [63, 105]],
            "profiles": ["P1", "P2"], "scores": [1, 2, 3], "sizes": [1, 2, 3, 4]},
+    # the same chains with two scores, for sets of four in the quick tier
+    "f3": {"ivs": [[0, 42], [21, 63], [42, 84], [63, 105]],
+           "profiles": ["P1", "P2"], "scores": [1, 2], "sizes": [4]},
     # two genes
     "f2": {"ivs": [[0, 41], [20, 62], [21, 62]], "profiles": ["P1", "P2"], "scores": [1, 2],
            "cdses": ["g1", "g2"], "sizes": [1, 2, 3]},
